@@ -76,7 +76,7 @@ class Sym:
     __slots__ = ('t',)
 
     def __init__(self, t): self.t = t
-    def __repr__(self): return "Sym(%s)" % z3.simplify(self.t)
+    def __repr__(self): return "<Sym>"
     def __add__(s, o): return Sym(s.t + _t(o))
     def __radd__(s, o): return Sym(_t(o) + s.t)
     def __sub__(s, o): return Sym(s.t - _t(o))
